@@ -334,6 +334,9 @@ func c08Run(j c08Job) *jobReport {
 	for i, r := range j.Readings {
 		ts := uint32(slotOf(i))
 		want := c08Value(r)
+		if j.FixedNow != 0 && int(ts)+432 < j.FixedNow {
+			continue // older than what the server accepts: cannot be recovered, must only not get in the way
+		}
 		if r == "" {
 			if _, okh := held[ts]; okh {
 				rep.fail("record-without-reading", map[string]interface{}{"config": cfgDesc, "slot": ts})
@@ -490,6 +493,18 @@ func init() {
 				}
 			}
 		}
+		// a long outage: 500 readings the server will never accept any more (older than now-432) sit in the history
+		// in front of one recent reading whose datagram was lost; the round must still get to the recent one
+		{
+			var rs, fs []string
+			var sl []int
+			for t := 101; t <= 600; t++ { // the history of this family begins at slot 100
+				rs, fs, sl = append(rs, "5000"), append(fs, "drop"), append(sl, t)
+			}
+			for _, recent := range []int{1000, 668} {
+				jobs = append(jobs, c08Job{Readings: append(append([]string{}, rs...), "5000"), Fates: append(append([]string{}, fs...), "drop"), Slots: append(append([]int{}, sl...), recent), FixedNow: 1100, Early: "none", Between: "none"})
+			}
+		}
 		// the device's own loop: readings present at start-up, a restart (with the newest / an older row revised or
 		// not), then the sync round the report loop itself launches
 		for _, rv := range [][]string{nil, {"", "3100"}, {"600", ""}, {"", "abc"}, {"", "", "3100"}} {
@@ -517,7 +532,7 @@ func init() {
 			}
 		}
 		run.Assumption("loss, duplication and reordering are decided per datagram by the scripted network; readings fit 32 signed bits (the property's own restriction)")
-		rc := runJobCheck(run, "c08", jobs, "every combination of per-slot reading {none, +5000, -3000, sentinel 2 (, sentinel 3, 70000)} x fate of the original datagram {delivered, dropped, duplicated} x earlier sync round {none, dial fails, malformed reply, ok with all retransmissions dropped, ok delivered} x {nothing, week rotation, server restart} before a final fault-free round on a real client and a real server; afterwards every datagram ever on the wire is re-delivered in reverse order; plus a boundary family (readings -2^31, -2^31+1, 2^31-1, 2^31-2, +-24, -25, 65535, +-65536 lost and retransmitted), plus the report loop's own sync round after a device restart (readings stored at start-up, rows revised or not in between), plus revised rows (the file says something else for a slot after its original was sent: unparseable->number, number->other number, sentinel->number, number->unparseable), plus a wide family (server clock fixed, readings at now-432, now-431, now-400, now-300, now-1 and a newest reading at now / now+100 / now+432, every subset of the older originals lost), plus dense runs of 18 consecutive slots from a bitfield byte boundary with none / each single / each adjacent pair of originals lost; distinct = (fate, early round, in-between event) classes; executions = evaluations")
+		rc := runJobCheck(run, "c08", jobs, "every combination of per-slot reading {none, +5000, -3000, sentinel 2 (, sentinel 3, 70000)} x fate of the original datagram {delivered, dropped, duplicated} x earlier sync round {none, dial fails, malformed reply, ok with all retransmissions dropped, ok delivered} x {nothing, week rotation, server restart} before a final fault-free round on a real client and a real server; afterwards every datagram ever on the wire is re-delivered in reverse order; plus a boundary family (readings -2^31, -2^31+1, 2^31-1, 2^31-2, +-24, -25, 65535, +-65536 lost and retransmitted), plus a backlog of 500 readings older than the acceptance range in front of one recent lost reading, plus the report loop's own sync round after a device restart (readings stored at start-up, rows revised or not in between), plus revised rows (the file says something else for a slot after its original was sent: unparseable->number, number->other number, sentinel->number, number->unparseable), plus a wide family (server clock fixed, readings at now-432, now-431, now-400, now-300, now-1 and a newest reading at now / now+100 / now+432, every subset of the older originals lost), plus dense runs of 18 consecutive slots from a bitfield byte boundary with none / each single / each adjacent pair of originals lost; distinct = (fate, early round, in-between event) classes; executions = evaluations")
 		return rc
 	}
 }
